@@ -116,6 +116,7 @@ class Ctx:
         out = {
             "prop": self.prop,
             "shard": self.shard,
+            "host_tz": getattr(self, "host_tz", None),
             "evaluations": self.evaluations,
             "distinct": sorted(self._distinct),
             "distinct_by_construction": self.distinct_by_construction,
